@@ -14,7 +14,7 @@ from props import _nfamily
 from props.c11 import dump_tree, diff_tree
 from common import cerberus, real_error, canon_errors
 
-LEVEL = "proof"
+LEVEL = "exploration"
 COQ_FILES = ["theories/Model/Normalize.v"]
 FACT_GROUPS = ["F16"]
 ALLOWED_AXIOMS = []
